@@ -241,13 +241,15 @@ def run(prop, tier, seed):
             def ashard(i):
                 out = os.path.join(work, "aeq_%d.ndjson" % i)
                 return _aborteq(exe, work, ["search-aborteq", "--seed", seed * 521 + i, "--positions", T.get("aeq_positions", 12), "--depth", 3,
-                                            "--samples", T.get("aeq_samples", 60), "--out", out], str(i), R)
+                                            "--samples", T.get("aeq_samples", 60), "--hist", i % 2, "--out", out], str(i), R)
             aev = aruns = 0
             for m, k in vlib.parallel(ashard, range(T["shards"])):
                 aev += m
                 aruns += k
             R.coverage["interrupted_then_completed_vs_fresh"] = {"positions_x_depths": aev, "interrupted_runs": aruns,
-                                                                 "note": "game positions of every phase (no finite-quiescence restriction), depth 2-3, random poll budgets"}
+                                                                 "note": "game positions of every phase (no finite-quiescence restriction), depth 2-3, random poll budgets; every second shard "
+                                                                         "with a game history in which the first move of a round trip is a third occurrence (the repetition answers for all successors "
+                                                                         "must be the same before and after the interrupted search)"}
             log("[C06] arbitrary positions: %d position/depth pairs, %d interrupted-then-completed runs compared with a fresh engine" % (aev, aruns))
         R.coverage["traces_validated_against_impl"] = tot.get("positions", 0) + R.coverage.get("alpha_beta_contract", {}).get("positions_x_depths", 0)
         R.coverage["graph_audit"] = tot
